@@ -141,6 +141,60 @@ pub const LEAVES: &[Leaf] = &[
     leaf("xcat <(xseq 2) < /dev/null"),
     Leaf { text: "coproc { simexit 2; }; wait", fatal: false, coproc: true },
     Leaf { text: "coproc CP { :; }; wait", fatal: false, coproc: true },
+    // rarer failures (appended: corpus cases index this table)
+    leaf("flocalro"),
+    leaf("V=x flocalro"),
+    leaf("for ((i18=0; i18<1/0; i18++)); do :; done"),
+    leaf("fevbreak"),
+    leaf("fexecbad"),
+    leaf("V=x fexecbad"),
+    leaf("fsrcret"),
+    leaf("V=x fsrcret a"),
+    leaf("case x in $(nosuchcmd_c18)) :;; esac"),
+    // (brush has no `select`)
+    leaf("while false; do :; done < /dev/null 2>&99"),
+    leaf("trap 'false' RETURN; fok; trap - RETURN"),
+    leaf("trap 'nosuchcmd_c18' DEBUG; true; trap - DEBUG"),
+    leaf("trap 'nosuchcmd_c18' ERR; false; trap - ERR"),
+    leaf("command -p nosuchcmd_c18"),
+    leaf("builtin nosuchbuiltin_c18"),
+    leaf("declare -A ma18; ma18[1/0]=x; unset ma18"),
+    leaf("ia18=(); ia18[1/0]=x; unset ia18"),
+    leaf("unset RO"),
+    leaf("local zz18=1"),
+    leaf("shift 5"),
+    leaf("cd /nonexistent_dir_c18"),
+    leaf("pushd /nonexistent_dir_c18"),
+    leaf("popd"),
+    leaf("printf '%d\\n' abc"),
+    leaf("read -u 99 v"),
+    leaf("echo x >&99"),
+    leaf("exec 98>&-"),
+    fatal("V=x fheredoc"),
+    leaf("fps"),
+    leaf("V=x fps"),
+    leaf("fretbad"),
+    // (side finding: a `break` outside any loop, or `break N` with N beyond the loop depth, ends the script at top level)
+    leaf("for b18 in 1; do fok; break; done"),
+    leaf("fsrcbad"),
+    leaf("V=x fsrcbad"),
+    fatal("eval 'if'"),
+    fatal("eval 'fbad18( {'"),
+    leaf("let 1/0"),
+    leaf("(( 1/0 ))"),
+    leaf("declare -n nr18=nr18"),
+    leaf("mapfile -t arr < missing_file"),
+    leaf("type nosuchcmd_c18"),
+    leaf("hash nosuchcmd_c18"),
+    leaf("[ 1 -eq ]"),
+    leaf("fok > /nonexistent_dir_c18/o 2>&1"),
+    leaf("fok 2>&99"),
+    leaf("x=$(fnocmd) y=$(ffail) fok"),
+    leaf("RO=5 xtrue"),
+    leaf("until false; do break; done > /nonexistent_dir_c18/x"),
+    leaf("if nosuchcmd_c18; then :; elif ./noexec.txt; then :; fi"),
+    leaf("flocalarr"),
+    leaf("frecfail 4"),
 ];
 
 const SETUP: &str = "readonly RO=1\n\
@@ -159,7 +213,17 @@ fnameref() { local -n ref=RO; local a=1; nosuchcmd_c18; }\n\
 fredir_bad() { echo x; } > /nonexistent_dir_c18/out\n\
 fredir_in() { simcat; } < missing_file\n\
 fredir_ok() { echo x; } > out3.txt\n\
-fredir_arg() { echo x; } > \"$1\"\n";
+fredir_arg() { echo x; } > \"$1\"\n\
+flocalro() { local RO=5; echo unreachable; }\n\
+fevbreak() { for a in 1 2; do for b in 1 2; do eval 'break 2'; done; done; }\n\
+fexecbad() { exec 9< missing_file; }\n\
+fsrcret() { . ./ret.sh; echo after; }\n\
+fheredoc() { simcat <<EOF >/dev/null\n${UNSET_C18?in heredoc}\nEOF\n}\n\
+fps() { simcat < <(nosuchcmd_c18); }\n\
+fretbad() { return abc; }\n\
+fsrcbad() { . ./missing.sh; }\n\
+flocalarr() { local -a la=(1 2); local -A lm=([k]=v); la[1/0]=x; }\n\
+frecfail() { local d=$1; if [ $d -gt 0 ]; then frecfail $((d-1)) > /dev/null; else nosuchcmd_c18 > /nonexistent_dir_c18/x; fi; }\n";
 
 pub fn render(case: &Case) -> String {
     let mut s = String::from(SETUP);
@@ -332,6 +396,7 @@ pub fn judge(case: &Case) -> Verdict {
         ("bad.sh".to_string(), "if true; then\n".to_string()),
         ("good.sh".to_string(), "gv=1\n".to_string()),
         ("noexec.txt".to_string(), "not a program\n".to_string()),
+        ("ret.sh".to_string(), "local insrc=1\nreturn 4\necho unreachable\n".to_string()),
         ("decl.sh".to_string(), "declare -a acc18\nacc18+=(x)\nlocal cnt18=1\ndeclare -i n18\nn18+=1\necho \"decl ${#acc18[@]} $n18 $cnt18\"\n".to_string()),
     ];
     let has_coproc = case.seq.iter().any(|i| LEAVES[*i % LEAVES.len()].coproc);
